@@ -1198,6 +1198,14 @@ def m_opt_unwrap_or(eng, st, fr, fn, args, t):
     return out
 
 
+def m_opt_unwrap_or_default(eng, st, fr, fn, args, t):
+    v = args[0]
+    out = []
+    for (s2, var, payload) in _fork_option(eng, st, v):
+        out.append((s2, payload if var == "Some" else ("call", "core::default::Default::default", ())))
+    return out
+
+
 def m_opt_map(eng, st, fr, fn, args, t):
     """Option::map(o, f) / is_some_and(o, f) with a closure literal: the closure is inlined on the Some arm"""
     body = eng.closure_body(args[1])
@@ -1575,6 +1583,7 @@ DEFAULT_MODELS = {
     "core::option::Option::<T>::unwrap": m_opt_unwrap,
     "core::option::Option::<T>::expect": m_opt_unwrap,
     "core::option::Option::<T>::unwrap_or": m_opt_unwrap_or,
+    "core::option::Option::<T>::unwrap_or_default": m_opt_unwrap_or_default,
     "core::option::Option::<T>::map": m_opt_map,
     "<core::option::Option<T> as core::default::Default>::default": m_opt_default,
     "core::option::Option::<T>::is_some_and": m_opt_map,
